@@ -385,6 +385,7 @@ type checkDef struct {
 	assume   []string
 	probes   []string // reach probes this check cares about
 	timeout  time.Duration
+	variants []string // job i runs worker check variants[i % len]
 }
 
 func seedFor(base uint64, i int) uint64 {
@@ -479,7 +480,11 @@ func sweep(bin string, def *checkDef, check, tier string, baseSeed uint64, cfg t
 				next++
 				wantSample := i < 3
 				mu.Unlock()
-				job := &Job{ID: i, Check: check, Tier: tier, Seed: seedFor(baseSeed, i), Trace: wantSample}
+				jcheck := check
+				if len(def.variants) > 0 {
+					jcheck = def.variants[i%len(def.variants)]
+				}
+				job := &Job{ID: i, Check: jcheck, Tier: tier, Seed: seedFor(baseSeed, i), Trace: wantSample}
 				r := w.do(job, timeout)
 				if w.dead {
 					w = startWorker(bin)
@@ -491,7 +496,7 @@ func sweep(bin string, def *checkDef, check, tier string, baseSeed uint64, cfg t
 					// a property verdict only if it reproduces in a fresh worker
 					mu.Unlock()
 					w2 := startWorker(bin)
-					r2 := w2.do(&Job{ID: i, Check: check, Tier: tier, Seed: job.Seed}, timeout)
+					r2 := w2.do(&Job{ID: i, Check: jcheck, Tier: tier, Seed: job.Seed}, timeout)
 					w2.stop()
 					mu.Lock()
 					if r2.died {
@@ -545,7 +550,11 @@ func sweep(bin string, def *checkDef, check, tier string, baseSeed uint64, cfg t
 		fmt.Printf("KNOWN-FINDING: property=%s %s (seed %d: %s)\n", def.property, what, r.Seed, oneLine(r.Violation.Msg, 160))
 	}
 	if firstViol != nil {
-		path := report(bin, def, check, tier, firstViol)
+		vcheck := check
+		if firstViol.Check != "" {
+			vcheck = firstViol.Check
+		}
+		path := report(bin, def, vcheck, tier, firstViol)
 		fmt.Printf("VIOLATION property=%s replay=%s\n", def.property, path)
 		code = 1
 	}
